@@ -166,18 +166,18 @@ Props/C08.vos Props/C08.vok Props/C08.required_vos: Props/C08.v Base/Prelude.vos
 Props/C06.vo Props/C06.glob Props/C06.v.beautified Props/C06.required_vo: Props/C06.v Model/Conc.vo Proofs/PickFlipProofs.vo Base/Prelude.vo Base/Wrap.vo Model/Hash.vo Model/Strategy.vo Proofs/HashProofs.vo Proofs/StrategyProofs.vo
 Props/C06.vio: Props/C06.v Model/Conc.vio Proofs/PickFlipProofs.vio Base/Prelude.vio Base/Wrap.vio Model/Hash.vio Model/Strategy.vio Proofs/HashProofs.vio Proofs/StrategyProofs.vio
 Props/C06.vos Props/C06.vok Props/C06.required_vos: Props/C06.v Model/Conc.vos Proofs/PickFlipProofs.vos Base/Prelude.vos Base/Wrap.vos Model/Hash.vos Model/Strategy.vos Proofs/HashProofs.vos Proofs/StrategyProofs.vos
-Props/C05.vo Props/C05.glob Props/C05.v.beautified Props/C05.required_vo: Props/C05.v Base/Prelude.vo Base/Wrap.vo Model/Hash.vo Model/Strategy.vo Proofs/StrategyProofs.vo Proofs/WrrBoundProofs.vo
-Props/C05.vio: Props/C05.v Base/Prelude.vio Base/Wrap.vio Model/Hash.vio Model/Strategy.vio Proofs/StrategyProofs.vio Proofs/WrrBoundProofs.vio
-Props/C05.vos Props/C05.vok Props/C05.required_vos: Props/C05.v Base/Prelude.vos Base/Wrap.vos Model/Hash.vos Model/Strategy.vos Proofs/StrategyProofs.vos Proofs/WrrBoundProofs.vos
+Props/C05.vo Props/C05.glob Props/C05.v.beautified Props/C05.required_vo: Props/C05.v Base/Prelude.vo Base/Wrap.vo Model/Hash.vo Model/Strategy.vo Proofs/StrategyProofs.vo Proofs/WrrBoundProofs.vo Gen/StrategyGen.vo Proofs/StrategyRefine.vo
+Props/C05.vio: Props/C05.v Base/Prelude.vio Base/Wrap.vio Model/Hash.vio Model/Strategy.vio Proofs/StrategyProofs.vio Proofs/WrrBoundProofs.vio Gen/StrategyGen.vio Proofs/StrategyRefine.vio
+Props/C05.vos Props/C05.vok Props/C05.required_vos: Props/C05.v Base/Prelude.vos Base/Wrap.vos Model/Hash.vos Model/Strategy.vos Proofs/StrategyProofs.vos Proofs/WrrBoundProofs.vos Gen/StrategyGen.vos Proofs/StrategyRefine.vos
 Props/C13.vo Props/C13.glob Props/C13.v.beautified Props/C13.required_vo: Props/C13.v Base/Prelude.vo Model/Strategy.vo Model/LB.vo Proofs/LBProofs.vo Proofs/AccountingProofs.vo
 Props/C13.vio: Props/C13.v Base/Prelude.vio Model/Strategy.vio Model/LB.vio Proofs/LBProofs.vio Proofs/AccountingProofs.vio
 Props/C13.vos Props/C13.vok Props/C13.required_vos: Props/C13.v Base/Prelude.vos Model/Strategy.vos Model/LB.vos Proofs/LBProofs.vos Proofs/AccountingProofs.vos
 Props/C11.vo Props/C11.glob Props/C11.v.beautified Props/C11.required_vo: Props/C11.v Base/Prelude.vo Model/Strategy.vo Model/LB.vo Proofs/LBProofs.vo Model/Conc.vo Proofs/ConcProofs.vo Proofs/ListingProofs.vo
 Props/C11.vio: Props/C11.v Base/Prelude.vio Model/Strategy.vio Model/LB.vio Proofs/LBProofs.vio Model/Conc.vio Proofs/ConcProofs.vio Proofs/ListingProofs.vio
 Props/C11.vos Props/C11.vok Props/C11.required_vos: Props/C11.v Base/Prelude.vos Model/Strategy.vos Model/LB.vos Proofs/LBProofs.vos Model/Conc.vos Proofs/ConcProofs.vos Proofs/ListingProofs.vos
-Props/C02.vo Props/C02.glob Props/C02.v.beautified Props/C02.required_vo: Props/C02.v Base/Prelude.vo Base/Wrap.vo Model/Hash.vo Model/Strategy.vo Model/LB.vo Proofs/StrategyProofs.vo Proofs/LBProofs.vo Proofs/FailoverProofs.vo Gen/HealthGen.vo Proofs/HealthRefine.vo
-Props/C02.vio: Props/C02.v Base/Prelude.vio Base/Wrap.vio Model/Hash.vio Model/Strategy.vio Model/LB.vio Proofs/StrategyProofs.vio Proofs/LBProofs.vio Proofs/FailoverProofs.vio Gen/HealthGen.vio Proofs/HealthRefine.vio
-Props/C02.vos Props/C02.vok Props/C02.required_vos: Props/C02.v Base/Prelude.vos Base/Wrap.vos Model/Hash.vos Model/Strategy.vos Model/LB.vos Proofs/StrategyProofs.vos Proofs/LBProofs.vos Proofs/FailoverProofs.vos Gen/HealthGen.vos Proofs/HealthRefine.vos
+Props/C02.vo Props/C02.glob Props/C02.v.beautified Props/C02.required_vo: Props/C02.v Base/Prelude.vo Base/Wrap.vo Model/Hash.vo Model/Strategy.vo Model/LB.vo Proofs/StrategyProofs.vo Proofs/LBProofs.vo Proofs/FailoverProofs.vo Gen/StrategyGen.vo Proofs/StrategyRefine.vo Gen/HealthGen.vo Proofs/HealthRefine.vo
+Props/C02.vio: Props/C02.v Base/Prelude.vio Base/Wrap.vio Model/Hash.vio Model/Strategy.vio Model/LB.vio Proofs/StrategyProofs.vio Proofs/LBProofs.vio Proofs/FailoverProofs.vio Gen/StrategyGen.vio Proofs/StrategyRefine.vio Gen/HealthGen.vio Proofs/HealthRefine.vio
+Props/C02.vos Props/C02.vok Props/C02.required_vos: Props/C02.v Base/Prelude.vos Base/Wrap.vos Model/Hash.vos Model/Strategy.vos Model/LB.vos Proofs/StrategyProofs.vos Proofs/LBProofs.vos Proofs/FailoverProofs.vos Gen/StrategyGen.vos Proofs/StrategyRefine.vos Gen/HealthGen.vos Proofs/HealthRefine.vos
 Props/C04.vo Props/C04.glob Props/C04.v.beautified Props/C04.required_vo: Props/C04.v Base/Prelude.vo Model/Strategy.vo Model/LB.vo Proofs/LBProofs.vo Model/Shutdown.vo Proofs/ShutdownProofs.vo Model/Conc.vo Proofs/ConcProofs.vo Gen/HealthGen.vo Proofs/HealthRefine.vo
 Props/C04.vio: Props/C04.v Base/Prelude.vio Model/Strategy.vio Model/LB.vio Proofs/LBProofs.vio Model/Shutdown.vio Proofs/ShutdownProofs.vio Model/Conc.vio Proofs/ConcProofs.vio Gen/HealthGen.vio Proofs/HealthRefine.vio
 Props/C04.vos Props/C04.vok Props/C04.required_vos: Props/C04.v Base/Prelude.vos Model/Strategy.vos Model/LB.vos Proofs/LBProofs.vos Model/Shutdown.vos Proofs/ShutdownProofs.vos Model/Conc.vos Proofs/ConcProofs.vos Gen/HealthGen.vos Proofs/HealthRefine.vos
@@ -256,3 +256,9 @@ Proofs/GzipRefine.vos Proofs/GzipRefine.vok Proofs/GzipRefine.required_vos: Proo
 Proofs/WrrBoundProofs.vo Proofs/WrrBoundProofs.glob Proofs/WrrBoundProofs.v.beautified Proofs/WrrBoundProofs.required_vo: Proofs/WrrBoundProofs.v Base/Prelude.vo Base/Wrap.vo Model/Hash.vo Model/Strategy.vo Proofs/StrategyProofs.vo Proofs/FailoverProofs.vo
 Proofs/WrrBoundProofs.vio: Proofs/WrrBoundProofs.v Base/Prelude.vio Base/Wrap.vio Model/Hash.vio Model/Strategy.vio Proofs/StrategyProofs.vio Proofs/FailoverProofs.vio
 Proofs/WrrBoundProofs.vos Proofs/WrrBoundProofs.vok Proofs/WrrBoundProofs.required_vos: Proofs/WrrBoundProofs.v Base/Prelude.vos Base/Wrap.vos Model/Hash.vos Model/Strategy.vos Proofs/StrategyProofs.vos Proofs/FailoverProofs.vos
+Gen/StrategyGen.vo Gen/StrategyGen.glob Gen/StrategyGen.v.beautified Gen/StrategyGen.required_vo: Gen/StrategyGen.v Base/Prelude.vo Base/Wrap.vo Model/Hash.vo Model/Strategy.vo
+Gen/StrategyGen.vio: Gen/StrategyGen.v Base/Prelude.vio Base/Wrap.vio Model/Hash.vio Model/Strategy.vio
+Gen/StrategyGen.vos Gen/StrategyGen.vok Gen/StrategyGen.required_vos: Gen/StrategyGen.v Base/Prelude.vos Base/Wrap.vos Model/Hash.vos Model/Strategy.vos
+Proofs/StrategyRefine.vo Proofs/StrategyRefine.glob Proofs/StrategyRefine.v.beautified Proofs/StrategyRefine.required_vo: Proofs/StrategyRefine.v Base/Prelude.vo Base/Wrap.vo Model/Hash.vo Model/Strategy.vo Proofs/StrategyProofs.vo Gen/StrategyGen.vo
+Proofs/StrategyRefine.vio: Proofs/StrategyRefine.v Base/Prelude.vio Base/Wrap.vio Model/Hash.vio Model/Strategy.vio Proofs/StrategyProofs.vio Gen/StrategyGen.vio
+Proofs/StrategyRefine.vos Proofs/StrategyRefine.vok Proofs/StrategyRefine.required_vos: Proofs/StrategyRefine.v Base/Prelude.vos Base/Wrap.vos Model/Hash.vos Model/Strategy.vos Proofs/StrategyProofs.vos Gen/StrategyGen.vos
